@@ -52,11 +52,11 @@ def notif_cases(draw):
     # what the failing callable raises (index into refmodel.exception_factories()); when it is drawn, the callable is called
     exc = draw(st.sampled_from([0, 0, 0, 1, 4, 6, 8, 9, 10, 10]))
     methods = st.sampled_from(["boom", "boom", "boom", "echo", "ident", "nope", "badkeys"]) if exc else None
-    entries = draw(st.lists(st.one_of(reqgen.valid_entries(methods, notif_bias=True), reqgen.valid_entries(methods, notif_bias=True), reqgen.entries(methods)), min_size=1, max_size=6))
+    entries = draw(st.lists(gen.pick(reqgen.valid_entries(methods, notif_bias=True), reqgen.valid_entries(methods, notif_bias=True), reqgen.entries(methods)), min_size=1, max_size=6))
     body = ("single", entries[0]) if len(entries) == 1 and draw(st.booleans()) else ("batch", entries)
     return {"body": body, "version": draw(st.sampled_from([1.0, 2.0])), "jsonclass": draw(st.booleans()),
             "mode": draw(st.sampled_from(dc.MODES)), "ascii": draw(st.booleans()), "exc": exc,
-            "handlers": draw(st.one_of(st.none(), st.none(), st.sampled_from(sorted(refmodel.HANDLER_TABLES))))}
+            "handlers": draw(gen.pick(st.none(), st.none(), st.sampled_from(sorted(refmodel.HANDLER_TABLES))))}
 
 
 # -- client side
@@ -69,7 +69,7 @@ def client_cases(draw):
         "calls": draw(st.lists(st.tuples(
             st.sampled_from(["notify", "notify", "call"]),
             st.sampled_from(["echo", "boom", "nope", "two", "none", "zero", "falsy", "ident"]),
-            st.one_of(st.lists(gen.json_values(4), max_size=3), st.dictionaries(st.sampled_from(["a", "b"]), gen.json_values(4), max_size=2))),
+            gen.pick(st.lists(gen.json_values(4), max_size=3), st.dictionaries(st.sampled_from(["a", "b"]), gen.json_values(4), max_size=2))),
             min_size=1, max_size=5)),
         "batch": draw(st.booleans()),
     }
@@ -159,7 +159,7 @@ def oracle_client(case):
 # -- pooled notifications under the deterministic scheduler (E2)
 @st.composite
 def pooled_cases(draw):
-    entries = draw(st.lists(st.one_of(reqgen.valid_entries(notif_bias=True), reqgen.valid_entries(notif_bias=True), reqgen.entries()), min_size=1, max_size=5))
+    entries = draw(st.lists(gen.pick(reqgen.valid_entries(notif_bias=True), reqgen.valid_entries(notif_bias=True), reqgen.entries()), min_size=1, max_size=5))
     body = ("single", entries[0]) if len(entries) == 1 and draw(st.booleans()) else ("batch", entries)
     mx = draw(st.integers(1, 3))
     kind = draw(st.sampled_from(["random", "random", "preempt"]))
